@@ -1,4 +1,5 @@
 //! Runtime-monitoring harness for Nashtare/winterfell (see /verif/DESIGN.md).
+pub mod chunks;
 pub mod coin;
 pub mod fields;
 pub mod gen;
